@@ -242,6 +242,17 @@ def foreign_widenings(t, s):
     return bad
 
 
+def _flat(v):
+    """flattened bit patterns, every NaN the same (sign and payload of a NaN are not results)"""
+    if isinstance(v, (list, tuple)):
+        return [y for x in v for y in _flat(x)]
+    try:
+        f = b2f(v)
+        return ["nan"] if f != f else [v]
+    except Exception:
+        return [v]
+
+
 def generic_scalar_guard(ctx, ss, k=6, tol=None):
     """the real generic code instantiated with the tracking scalar on a few of the samples: exactly the three narrowings of the Gamma
     draw (shape, coordinate 2E-2, tolerance), none while the Feynman parameters are computed, and no f64 constant widened into the
@@ -271,6 +282,20 @@ def generic_scalar_guard(ctx, ss, k=6, tol=None):
         if bad:
             ctx.violation(f"generic code: f64 values that are neither table constants, settings, the Gamma variate nor exactly representable short "
                           f"numbers are widened into the user's scalar type: {bad[:4]}", small, observed=bad)
+        # the tracking scalar does f64 arithmetic with the same std functions: the generic code instantiated with it must return the
+        # very bits the f64 instantiation returns (a provided trait method that f64 overrides, a fast path for f64 only, ... shows here)
+        a = s["impl"]
+        pairs = [(f, a.get(f), t.get(f)) for f in ("u", "v", "jac", "k")]
+        if a.get("meta"):
+            pairs += [("q_vectors", a["meta"].get("q"), t.get("q")), ("lambda", a["meta"].get("lambda"), t.get("lambda"))]
+        for f, va, vt in pairs:
+            if va is None or vt is None:
+                continue
+            ctx.count("generic_scalar_guard.value_fields")
+            if _flat(va) != _flat(vt):
+                ctx.violation(f"generic code: {f} computed with a user scalar type that wraps f64 arithmetic differs from the f64 result "
+                              f"(the generic path and the f64 path are not the same computation)", small, expected={f: va}, observed={f: vt})
+                break
 
 
 
